@@ -159,9 +159,12 @@ def run_stream(res, work, tier, seed):
                 if n > 4 and tier == "quick" and block in (0, 4) and rng.random() < 0.5:
                     continue
                 rid += 1
-                runs.append({"run": rid, "cfg": {"kind": "chunker", "stream": list(s), "block": block,
-                                                 "sched": rng.choice(SCHEDS), "prep": rng.choice([-1, -1, 0, 1, 2, 3, 5])},
-                             "ops": []})
+                cfgc = {"kind": "chunker", "stream": list(s), "block": block,
+                        "sched": rng.choice(SCHEDS), "prep": rng.choice([-1, -1, 0, 1, 2, 3, 5])}
+                if rng.random() < 0.25:
+                    cfgc["keep"] = False
+                    cfgc["between"] = rng.choice(["flush", "replace", "ensure"])
+                runs.append({"run": rid, "cfg": cfgc, "ops": []})
     for n in range(0, maxlen_r + 1):
         for s in itertools.product(ALPHA, repeat=n):
             for block in (0, 1, 2, 3, 4):
@@ -194,6 +197,12 @@ def run_stream(res, work, tier, seed):
             rid += 1
             runs.append({"run": rid, "cfg": {"kind": "chunker", "stream": s, "block": block, "sched": sched,
                                              "prep": rng.choice([-1, 0, 1, 2, 3, 4, 5, 6, 7, 9, 17])}, "ops": []})
+            if rng.random() < 0.5:
+                # a caller that drops every chunk at once and flushes / replaces / grows its arena between two pumps
+                rid += 1
+                runs.append({"run": rid, "cfg": {"kind": "chunker", "stream": s, "block": block, "sched": sched, "keep": False,
+                                                 "between": rng.choice(["flush", "replace", "ensure", "flush"]),
+                                                 "prep": rng.choice([-1, 0, 1, 3])}, "ops": []})
             rid += 1
             mx = rng.choice([-1, -1, 0, 1, 5, 40, 252, 300])
             lim = rng.choice([-1, -1, 0, 1, 2, len(s) // 2, len(s), len(s) + 5]) if s else -1
